@@ -6,6 +6,7 @@ Tie (exact): Model/PureFn.v (Uniquifier + substitution) against xitorch._utils.u
 Oracle (implementation): every functional x every function kind of tools/fkinds.py returns the same
   value and the same first/second-order gradients w.r.t. the underlying leaves as the pure form."""
 from __future__ import annotations
+import warnings
 import torch
 from vlib import cnat, clist, cbool, coq_bool_cases
 import fkinds, workloads
@@ -170,6 +171,71 @@ def reuse_after_failure_oracle(ctx):
                     break
 
 
+def jac_partial_substitution_probe(ctx):
+    """the Jacobian operator of jac(): replacing ONLY the function's own parameter through the operator's public parameter interface
+    (getlinopparams / uselinopparams), with the differentiated input left the same tensor, gives the products and the gradient of
+    the new parameter - for an explicit parameter, a torch.nn.Module parameter and an EditableModule attribute alike (round-5 seed
+    C09/13: the staleness test of the cached graph looked at the explicit tensors only)"""
+    import xitorch as xt
+    from xitorch.grad import jac
+    DT = torch.float64
+    g = torch.Generator().manual_seed(ctx.seed + 41)
+
+    def f_explicit(x, a):
+        return a * x ** 2 + torch.sin(a) * x
+
+    class NNMod(torch.nn.Module):
+        def __init__(self, a):
+            super().__init__()
+            self.a = a
+
+        def forward(self, x):
+            return self.a * x ** 2 + torch.sin(self.a) * x
+
+    class EdMod(xt.EditableModule):
+        def __init__(self, a):
+            self.a = a
+
+        def forward(self, x):
+            return self.a * x ** 2 + torch.sin(self.a) * x
+
+        def getparamnames(self, methodname, prefix=""):
+            return [prefix + "a"]
+    n = 4
+    x = torch.rand(n, dtype=DT, generator=g).requires_grad_()
+    a = torch.nn.Parameter(torch.rand(n, dtype=DT, generator=g) + 0.5)
+    a2 = (a.detach() * 3.0 + 0.25).requires_grad_()
+    v = torch.rand(n, dtype=DT, generator=g)
+    diag = lambda a_: 2 * a_ * x + torch.sin(a_)
+    ops = {"explicit": lambda: jac(f_explicit, (x, a), idxs=0), "nn.Module": lambda: jac(NNMod(a).forward, (x,), idxs=0),
+           "EditableModule": lambda: jac(EdMod(a).forward, (x,), idxs=0)}
+    for name, mk in ops.items():
+        ctx.count(("jac-partial-substitution", name), nontrivial=True)
+        try:
+            with warnings.catch_warnings():
+                warnings.simplefilter("ignore")
+                J = mk()
+                y0 = J.mv(v)
+                params = list(J.getlinopparams())
+                newparams = [a2 if p is a else p for p in params]
+                with J.uselinopparams(*newparams):
+                    y1 = J.mv(v)
+                    z1 = J.rmv(v)
+                    ga2, = torch.autograd.grad(y1.sum(), a2, allow_unused=True)
+                y2 = J.mv(v)
+        except Exception as e:
+            ctx.fail("oracle", "jac:partial-substitution:exception", {"parameter_kind": name}, repr(e)[:300], "products of the operator")
+            continue
+        y1_true = diag(a2) * v
+        ga2_true, = torch.autograd.grad(y1_true.sum(), a2)
+        obs = {"original": bool(torch.allclose(y0, diag(a) * v)), "has_parameter": any(p is a for p in params),
+               "mv_substituted": bool(torch.allclose(y1, y1_true)), "rmv_substituted": bool(torch.allclose(z1, y1_true)),
+               "grad_new_parameter": ga2 is not None and bool(torch.allclose(ga2, ga2_true)), "restored": bool(torch.allclose(y2, diag(a) * v))}
+        if not all(obs.values()):
+            ctx.fail("oracle", "jac:partial-substitution:%s" % name, {"parameter_kind": name, "sequence": "jac(); uselinopparams(only a replaced); mv, rmv, grad; mv after exit"},
+                     obs, "all true")
+
+
 def check(ctx):
     cases, meta = [], []
     uniq_cases(ctx, cases, meta)
@@ -181,8 +247,10 @@ def check(ctx):
         ctx.broken("correspondence:purefn", {"case": meta[i], "coq": cases[i][:800]})
     api_oracle(ctx)
     reuse_after_failure_oracle(ctx)
+    jac_partial_substitution_probe(ctx)
 
 
 def search(ctx):
     api_oracle(ctx)
     reuse_after_failure_oracle(ctx)
+    jac_partial_substitution_probe(ctx)
